@@ -2,6 +2,7 @@ mod common;
 mod exec;
 mod sched;
 mod storesim;
+mod trackersim;
 
 use common::*;
 use sched::{mix, Mode, SchedSpec};
@@ -18,6 +19,13 @@ fn engine_for(prop: &str) -> Option<Box<dyn Engine>> {
         "C09" => Some(Box::new(storesim::StoreEngine { prop: "C09" })),
         "C10" => Some(Box::new(storesim::StoreEngine { prop: "C10" })),
         "C11" => Some(Box::new(storesim::StoreEngine { prop: "C11" })),
+        "C01" => Some(Box::new(trackersim::TrackerEngine { prop: "C01" })),
+        "C02" => Some(Box::new(trackersim::TrackerEngine { prop: "C02" })),
+        "C03" => Some(Box::new(trackersim::TrackerEngine { prop: "C03" })),
+        "C04" => Some(Box::new(trackersim::TrackerEngine { prop: "C04" })),
+        "C05" => Some(Box::new(trackersim::TrackerEngine { prop: "C05" })),
+        "C06" => Some(Box::new(trackersim::TrackerEngine { prop: "C06" })),
+        "C20" => Some(Box::new(trackersim::TrackerEngine { prop: "C20" })),
         _ => None,
     }
 }
